@@ -36,7 +36,7 @@ def dtorCount (K : Nat) (outs : List Out) : Nat := outs.count (.dtor (some K))
 
 /-- the output is an accepted `qb_hdb_iterator_next` that returned the instance of object `K` -/
 def Out.isIterOf (K : Nat) : Out → Bool
-  | .iter rc inst _ => rc == 0 && inst == some K
+  | .iter res inst _ => res == 0 && inst == some K
   | _ => false
 
 /-- bookkeeping of one call (`op` with its observable outputs `outs`) for the object `K` issued as `h`.
